@@ -49,6 +49,7 @@ namespace
         std::string                        name;
         long                               start{1}, end{8};
         bool                               cleanup{true};
+        bool                               slots{false};   // dump every live graph's schedule table at the end of each root cycle
         std::map<std::string, GraphSpec>   graphs;
         std::map<long, NodeSpec>           nodes;
     };
@@ -1156,6 +1157,36 @@ namespace
     // ---------- observer ----------
     struct Obs : LifecycleObserver
     {
+        // live graph instances (root and every nested child), for the schedule-table dump
+        std::map<long, GraphPtr> live_graphs;
+        void dump_slots(const GraphView &root)
+        {
+            std::string gs = "[";
+            bool        first = true;
+            for (auto &[inst, gp] : live_graphs)
+            {
+                GraphView g{gp};
+                if (!first) { gs += ","; }
+                first = false;
+                long pg = -1, pn = -1;
+                if (g.is_nested())
+                {
+                    auto p = g.as_nested().parent_node();
+                    pg     = inst_of(p);
+                    pn     = static_cast<long>(p.node_index());
+                }
+                gs += "{\"g\":" + std::to_string(inst) + ",\"pg\":" + std::to_string(pg) + ",\"pn\":" + std::to_string(pn) +
+                      ",\"et\":" + std::to_string(to_k(g.evaluation_time())) + ",\"next\":" + std::to_string(to_k(g.next_scheduled_time())) + ",\"s\":[";
+                for (std::size_t i = 0; i < g.node_count(); ++i)
+                {
+                    if (i) { gs += ","; }
+                    gs += std::to_string(to_k(g.node_scheduled_time(i)));
+                }
+                gs += "]}";
+            }
+            gs += "]";
+            J("slots").i("t", to_k(root.evaluation_time())).raw("gs", gs).emit();
+        }
         void on_before_start_graph(const GraphView &g) override
         {
             J j("gstart");
@@ -1169,7 +1200,11 @@ namespace
             j.i("nn", static_cast<long>(g.node_count()));
             j.emit();
         }
-        void on_after_start_graph(const GraphView &g) override { J("gstarted").i("g", inst_of(g)).emit(); }
+        void on_after_start_graph(const GraphView &g) override
+        {
+            J("gstarted").i("g", inst_of(g)).emit();
+            if (g_scn != nullptr && g_scn->slots) { live_graphs.insert_or_assign(inst_of(g), g.pointer()); }
+        }
         void on_start_graph_failed(const GraphView &g) override { J("gstartfail").i("g", inst_of(g)).emit(); }
         static long id_of(const NodeView &n)
         {
@@ -1195,6 +1230,7 @@ namespace
         void on_after_graph_evaluation(const GraphView &g) override
         {
             J("cycled").i("g", inst_of(g)).i("t", to_k(g.evaluation_time())).i("next", to_k(g.next_scheduled_time())).emit();
+            if (g_scn != nullptr && g_scn->slots && !g.is_nested()) { dump_slots(g); }
         }
         void on_before_node_evaluation(const NodeView &n) override
         {
@@ -1207,7 +1243,11 @@ namespace
         void on_before_stop_node(const NodeView &n) override { J("nstop").i("g", inst_of(n)).i("n", static_cast<long>(n.node_index())).i("id", id_of(n)).emit(); }
         void on_after_stop_node(const NodeView &n) override { J("nstopped").i("g", inst_of(n)).i("n", static_cast<long>(n.node_index())).emit(); }
         void on_stop_node_failed(const NodeView &n) override { J("nstopfail").i("g", inst_of(n)).i("n", static_cast<long>(n.node_index())).emit(); }
-        void on_before_stop_graph(const GraphView &g) override { J("gstop").i("g", inst_of(g)).emit(); }
+        void on_before_stop_graph(const GraphView &g) override
+        {
+            live_graphs.erase(inst_of(g));
+            J("gstop").i("g", inst_of(g)).emit();
+        }
         void on_after_stop_graph(const GraphView &g) override
         {
             J("gstopped").i("g", inst_of(g)).emit();
@@ -1351,6 +1391,7 @@ namespace
                 scn->start   = l.geti("start", 1);
                 scn->end     = l.geti("end", 8);
                 scn->cleanup = l.geti("cleanup", 1) != 0;
+                scn->slots   = l.geti("slots", 0) != 0;
             }
             else if (cmd == "graph")
             {
